@@ -28,6 +28,8 @@ MISUSE = [
     ("missing-deps", "Foo", ["pub fn", "f", "() {}"], MSG_DEPS, 1),
     ("self-receiver", "Foo", ["pub fn f(", "&self", ") {}"], "Function cannot have a self receiver", 1),
     ("self-receiver-value", "Foo", ["pub fn f(", "self", ", a: i32) {}"], "Function cannot have a self receiver", 1),
+    ("self-receiver-no-deps", "Foo, no_deps", ["pub fn f(", "&self", ", a: i32) {}"], "Function cannot have a self receiver", 1),
+    ("self-receiver-no-deps-typed-in-module", "Foo, no_deps", ["pub mod m { pub fn f(", "self: Box<Self>", ") {} }"], "Function cannot have a self receiver", 1),
     ("concrete-in-module", "Foo", ["pub mod m { pub fn a(deps:", "&u32", ") {} }"], "Using concrete dependencies in a module is an anti-pattern", 1),
     ("concrete-in-impl", "", ["impl TrImpl for X { fn a(deps:", "&u32", ") {} }"], "Cannot (yet) use concrete dependency in an impl block", 1),
     ("concrete-in-module-later-fn", "Foo", ["pub mod m { pub fn a(deps: &impl ::core::any::Any) {} fn p() {} pub fn b(deps:", "&u32", ") {} }"], "Using concrete dependencies in a module is an anti-pattern", 1),
